@@ -423,7 +423,7 @@ fn run(ctx: &mut Ctx) {
     let t = ctx.tier;
     let shapes = ovl_family();
     let mut r = ctx.rng(16);
-    let n = ctx.scaled(t.pick(800, 8_000)) / ctx.nshards as u64 + 1;
+    let n = ctx.scaled(t.pick(800, 30_000)) / ctx.nshards as u64 + 1;
     'outer: for _ in 0..n {
         for (ops, gen) in &shapes {
             let vseed = r.next();
@@ -433,7 +433,7 @@ fn run(ctx: &mut Ctx) {
         }
     }
     ctx.exhaustive("for every generated value with at most 3 items per list: all order-preserving interleavings of its child elements (when at most 2000) x every event-buffer limit 1..=child events+2");
-    let n = ctx.scaled(t.pick(3_000, 30_000)) / ctx.nshards as u64 + 1;
+    let n = ctx.scaled(t.pick(3_000, 120_000)) / ctx.nshards as u64 + 1;
     'outer2: for _ in 0..n {
         for (ops, gen) in &shapes {
             let vseed = r.next();
@@ -444,7 +444,7 @@ fn run(ctx: &mut Ctx) {
         }
     }
     // two-level interleavings for the shapes with nested struct items
-    let n = ctx.scaled(t.pick(6_000, 60_000)) / ctx.nshards as u64 + 1;
+    let n = ctx.scaled(t.pick(6_000, 240_000)) / ctx.nshards as u64 + 1;
     'outer3: for _ in 0..n {
         for (ops, gen) in &shapes {
             if !matches!(ops.name, "OvlSame" | "OvlDeep" | "OvlNested" | "OvlRec") {
